@@ -146,7 +146,7 @@ def _rsa_moduli(rnd):
   ]
 
 
-_EXPONENTS = (65537, 0, 1, 2, 3, (1 << 64) + 1, (1 << 2048) + 7)
+_EXPONENTS = (65537, 0, 1, 2, 3, (1 << 64) + 1, (1 << 2048) + 7, (1 << 20000) + 3)  # the last: > 10^4300 (int->str limit)
 
 
 def _rsa_batches(rnd, moduli, pb, seven=3):
@@ -170,7 +170,7 @@ def _rsa_batches(rnd, moduli, pb, seven=3):
          bound="15 RSA checks (13 cheap ones with default constructors + CheckKeypairDenylist + CheckUnseededRand) x 22 "
                "moduli >= 2^63 (prime, even, perfect square, cube, powers of two 2^63..2^2048, odd bit lengths 65 / 1023 / "
                "2047, all-ones, three primes, smooth cofactor, healthy) x exponents {65537, empty, 1, 2, 3, 2^64+1, "
-               "2^2048+7} x batch sizes 0, 1, 2 (neighbours, duplicates), 7 (seeded mixtures, 7 duplicates)",
+               "2^2048+7, 2^20000+3} x batch sizes 0, 1, 2 (neighbours, duplicates), 7 (seeded mixtures, 7 duplicates)",
          functions=["rsa_single_checks.*.Check", "rsa_aggregate_checks.*.Check", "rsa_util.*", "ntheory_util.*"])
 def rsa_individual_total(ctx):
   pb = _lib()
